@@ -18,6 +18,7 @@ import (
 	"strconv"
 	"strings"
 	"sync"
+	"sync/atomic"
 	"syscall"
 	"time"
 )
@@ -134,7 +135,7 @@ func (c *Ctx) Next() bool {
 	return c.Mine(i)
 }
 
-func (c *Ctx) Eval(n int64)          { c.P.Evaluations += n }
+func (c *Ctx) Eval(n int64)          { c.P.Evaluations += n; atomic.AddInt64(&evalTick, n) }
 func (c *Ctx) Distinct(n int64)      { c.P.Distinct += n }
 func (c *Ctx) Add(k string, n int64) { c.P.Counters[k] += n }
 func (c *Ctx) Flag(k string, v bool) { old, ok := c.P.Flags[k]; c.P.Flags[k] = v && (old || !ok) }
@@ -197,6 +198,27 @@ func (c *Ctx) Confirm(f *Finding, run func() *Finding) {
 		}
 	}
 	c.Report(f)
+}
+
+// evalTick counts completed cases for the stall watchdog (Driver.StallSeconds).
+var evalTick int64
+
+// stallWatch ends a worker in which no case completed for the given time although every case of
+// the driver takes microseconds: a call into the library does not return. The parent attributes
+// exit code 68 to the case in the breadcrumb.
+func stallWatch(seconds int) {
+	last, since := int64(-1), time.Now()
+	for {
+		time.Sleep(2 * time.Second)
+		if now := atomic.LoadInt64(&evalTick); now != last {
+			last, since = now, time.Now()
+			continue
+		}
+		if time.Since(since) > time.Duration(seconds)*time.Second {
+			fmt.Fprintf(os.Stderr, "verif: stalled: no case completed for %d s (a call into the library does not return)\n", seconds)
+			os.Exit(68)
+		}
+	}
 }
 
 // CurFlavour is the build flavour of the running binary (set by Main).
@@ -286,6 +308,9 @@ type Driver struct {
 	ReplayIn string
 	// ReplayInIf, when set, restricts ReplayIn to the replay files for which it returns true.
 	ReplayInIf func(raw []byte) bool
+	// StallSeconds > 0: every case of this driver takes far less than a second; a worker in which no
+	// case completes for that long is stopped (exit 68) and the case in its breadcrumb is blamed.
+	StallSeconds int
 	// Crash turns the breadcrumb of a worker that died into a finding (nil: machinery error).
 	Crash func(crumb []byte, stderrTail string) *Finding
 }
@@ -364,6 +389,9 @@ func Main(flavour string) {
 		}
 		c.openCrumb(os.Getenv("VERIF_PARTIAL") + ".crumb")
 		go memoryWatch(flavour)
+		if d.StallSeconds > 0 {
+			go stallWatch(d.StallSeconds)
+		}
 		if pf := os.Getenv("VERIF_CPUPROFILE"); pf != "" {
 			f, _ := os.Create(pf)
 			pprof.StartCPUProfile(f)
